@@ -6,6 +6,8 @@
                                                  tree: two request shapes have NO reply path — the worker
                                                  raises UnboundLocalError / ValueError and dies)
      _RpcThread._handle_method_rpc_request    -> method_gate (the token comparison before dispatch)
+     _RpcThread.run (request loop, reply send and its failure path)
+                                              -> worker_step / worker_run (reply delivery is an input)
      QMI_RpcProxy.lock / unlock / force_unlock / is_locked and the forwarding stubs
                                               -> req_of / sys_step (the request a proxy sends, and what it
                                                  remembers / returns given the reply)
@@ -190,6 +192,51 @@ Fixpoint executed (s : sys) (ops : list op) : list (option token * N) :=
       | Some (t, x) => if method_gate (owner s) t then (t, x) :: executed s1 r else executed s1 r
       | None => executed s1 r
       end
+  end.
+
+(* ---------------------------------------------------------------------------------------------- *)
+(* The worker loop with reply delivery as an input                                                *)
+(* ---------------------------------------------------------------------------------------------- *)
+(* One iteration of _RpcThread.run: take a request, run the handler, hand the reply to the context.
+   [deliverable] says whether send_message succeeded (false: QMI_MessageDeliveryException — the requester's
+   context stopped or disconnected while its request was queued).  The loop only logs that failure: the
+   reply is produced either way and the lock state, the log and every later request are unaffected; the
+   third component of the result is whether the requester RECEIVES the reply. *)
+Inductive request := RqLock (a : action) (t : option token) | RqCall (t : option token) (x : N).
+Inductive wreply := WLock (r : reply) | WExec (ran : bool).
+Record wst := mkW { w_owner : option token; w_log : list N }.
+Definition init_wst : wst := mkW None [].
+
+Definition worker_step (s : wst) (rq : request) (deliverable : bool) : wst * (wreply * bool) :=
+  match rq with
+  | RqLock a t =>
+      let '(o', r) := lock_step (w_owner s) a t in (mkW o' (w_log s), (WLock r, deliverable))
+  | RqCall t x =>
+      if method_gate (w_owner s) t
+      then (mkW (w_owner s) (w_log s ++ [x]), (WExec true, deliverable))
+      else (s, (WExec false, deliverable))
+  end.
+
+Fixpoint worker_run (s : wst) (l : list (request * bool)) : wst * list (wreply * bool) :=
+  match l with
+  | [] => (s, [])
+  | (rq, d) :: r =>
+      let '(s1, x) := worker_step s rq d in
+      let '(s2, xs) := worker_run s1 r in (s2, x :: xs)
+  end.
+
+(* the same input at the level of proxies: when the reply is lost the proxy does no bookkeeping (its call
+   ends with a delivery error), the object has handled the request all the same *)
+Definition sys_step_d (s : sys) (o : op) (deliverable : bool) : sys * option out :=
+  let '(s1, x) := sys_step s o in
+  if deliverable then (s1, Some x) else (mkSys (owner s1) (ptok s) (log s1), None).
+
+Fixpoint sys_run_d (s : sys) (l : list (op * bool)) : sys * list (option out) :=
+  match l with
+  | [] => (s, [])
+  | (o, d) :: r =>
+      let '(s1, x) := sys_step_d s o d in
+      let '(s2, xs) := sys_run_d s1 r in (s2, x :: xs)
   end.
 
 (* ---------------------------------------------------------------------------------------------- *)
